@@ -403,7 +403,18 @@ def framing_rule(ctx, rep, R, which=("from_file", "check_pack")):
                   f"a ranged read of the trailer does not end at pack_size / pack_size - LENGTH_LEN: offset + length = {ends}")
     if "check_pack" in which:
         CPK = prog.find1(r"^rustic_core::commands::check::check_pack$")
-        a = symlen.Analysis(CPK, SINKS).run()
+        # a per-blob helper of the check module that hands one of its parameters straight to decrypt counts as a decrypt sink
+        # at its call site (`check_pack_blob(be, id, &blob, &raw_blob, collector)`)
+        sinks_cp = list(SINKS)
+        for _, t_ in CPK.calls():
+            if "callee" in t_ and callee(t_).startswith("rustic_core::commands::check::") and callee(t_) in prog.bodies and callee(t_) != CPK.path:
+                H_ = prog.bodies[callee(t_)]
+                for _, th in H_.calls():
+                    if "callee" in th and re.search(r"DecryptReadBackend(>)?::decrypt$", callee(th) + " " + callee_decl(th)) and len(th["args"]) > 1:
+                        e_ = flow.expr_of(H_, th["args"][1])
+                        if e_[0] == "path" and e_[1][0] == "arg" and not e_[2]:
+                            sinks_cp.append(("decrypt", "^" + re.escape(callee(t_)) + "$", e_[1][1] - 1, "blen"))
+        a = symlen.Analysis(CPK, sinks_cp).run()
         lf = [v for (n, bb, v) in a.found if n == "lenfield"]
         rep.check(R, "check_pack/length-field-is-LENGTH_LEN-bytes", bool(lf) and all(v == Lin(LL) for v in lf), where=CPK.loc(),
                   what=f"check_pack decodes the last LENGTH_LEN = {LL} bytes of the pack as the length field ({lf})")
